@@ -1350,6 +1350,13 @@ func genC17(g *G, sc *Scenario, tier string, seed uint64) {
 		killed = true
 		spec = map[string]any{"killAtSink": g.Range(1, n-1)}
 		cfg["batchSize"] = 1
+		if n >= 3 && g.P(0.5) {
+			// ... or the first entity has been rejected (and reported by the log handler, which has no limit here) when
+			// the kill comes: the run ends as killed all the same, and a killed run is not run again
+			spec["killAtSink"] = g.Range(2, n-1)
+			spec["rejectIds"] = []any{fmt.Sprintf("%sx%03d", MkE, 0)}
+			onError[0].(map[string]any)["maxItems"] = 0
+		}
 	}
 	if !killed && !big && !withRerun && jobType == "incremental" && g.P(0.2) {
 		// a second trigger of the same job type (on change of the source) with its own log handler: each trigger's runs
